@@ -325,6 +325,32 @@ where
             return false;
         }
     }
+    // the remaining Iterator methods must agree with the slice iterator on what is left
+    {
+        let n = model.clone().count();
+        let got_count = real.clone().count();
+        let got_last = real.clone().last();
+        let want_last = model.clone().last().copied();
+        let got_fold: Vec<T> = real.clone().fold(Vec::new(), |mut v, x| {
+            v.push(x);
+            v
+        });
+        let want_fold: Vec<T> = model.clone().copied().collect();
+        let got_rfold: Vec<T> = real.clone().rfold(Vec::new(), |mut v, x| {
+            v.push(x);
+            v
+        });
+        let want_rfold: Vec<T> = model.clone().rev().copied().collect();
+        if got_count != n || got_last != want_last || got_fold != want_fold || got_rfold != want_rfold {
+            c.violation(
+                "iterator-differs-from-slice-iterator",
+                name,
+                format!("{name}: after {ops:?}: count() = {got_count} / last() = {got_last:?} / fold = {got_fold:?} / rfold = {got_rfold:?}; the slice iterator has {n} left: {want_fold:?}"),
+                obj().set("iterator", name).set("ops", format!("{ops:?}")),
+            );
+            return false;
+        }
+    }
     // drain the rest from the front / via rev
     let rest: Vec<T> = if ops.len() % 2 == 0 { real.collect() } else { real.rev().collect() };
     let wrest: Vec<T> = if ops.len() % 2 == 0 { model.copied().collect() } else { model.rev().copied().collect() };
